@@ -20,12 +20,15 @@ namespace Nix.Tree.Ids
 open Nix.Tree Nix.Py
 
 structure SuppliedOK (given : List (Nat × String)) (gen : Nat → String) (rs : List Node) : Prop where
-  genInj : ∀ a ∈ keysL rs, ∀ b ∈ keysL rs, gen a = gen b → a = b
-  genUuid : ∀ a ∈ keysL rs, uuidAccepts (gen a) = true
+  /-- the entities of the forest whose id the library made (`lookup = none`) have pairwise different ids … -/
+  genInj : ∀ a ∈ keysL rs, given.lookup a = none → ∀ b ∈ keysL rs, given.lookup b = none → gen a = gen b → a = b
+  /-- … that are ids -/
+  genUuid : ∀ a ∈ keysL rs, given.lookup a = none → uuidAccepts (gen a) = true
   givenUuid : ∀ k t, (k, t) ∈ given → uuidAccepts t = true
   givenNodup : (given.map Prod.snd).Nodup
-  sep : ∀ k t, (k, t) ∈ given → ∀ a ∈ keysL rs, t ≠ gen a
-  names : ∀ n ∈ nodesL rs, (∀ a ∈ keysL rs, n.name ≠ gen a) ∧ ∀ k t, (k, t) ∈ given → n.name ≠ t
+  sep : ∀ k t, (k, t) ∈ given → ∀ a ∈ keysL rs, given.lookup a = none → t ≠ gen a
+  names : ∀ n ∈ nodesL rs,
+    (∀ a ∈ keysL rs, given.lookup a = none → n.name ≠ gen a) ∧ ∀ k t, (k, t) ∈ given → n.name ≠ t
 
 theorem lookup_mem {given : List (Nat × String)} {k : Nat} {t : String} (h : given.lookup k = some t) :
     (k, t) ∈ given := by
@@ -57,29 +60,30 @@ attribute [local irreducible] Nix.Py.uuidAccepts in
 /-- the texts of a history are fit for its forest when the caller's ids are (see the head of the file) -/
 theorem idsOK_of_supplied {given : List (Nat × String)} {gen : Nat → String} {rs : List Node}
     (h : SuppliedOK given gen rs) : IdsOK (textsOf given gen) rs := by
-  have cases_text : ∀ a, (∃ t, (a, t) ∈ given ∧ textsOf given gen a = t) ∨ textsOf given gen a = gen a := by
+  have cases_text : ∀ a, (∃ t, (a, t) ∈ given ∧ textsOf given gen a = t) ∨
+      (given.lookup a = none ∧ textsOf given gen a = gen a) := by
     intro a
     unfold textsOf
     cases hl : given.lookup a with
-    | none => exact .inr rfl
+    | none => exact .inr ⟨rfl, rfl⟩
     | some t => exact .inl ⟨t, lookup_mem hl, rfl⟩
   refine ⟨?_, ?_, ?_⟩
   · intro a ha b hb hab
-    rcases cases_text a with ⟨ta, hma, hta⟩ | hta <;> rcases cases_text b with ⟨tb, hmb, htb⟩ | htb
+    rcases cases_text a with ⟨ta, hma, hta⟩ | ⟨hla, hta⟩ <;> rcases cases_text b with ⟨tb, hmb, htb⟩ | ⟨hlb, htb⟩
     · have e : ta = tb := hta.symm.trans (hab.trans htb)
       exact snd_inj_of_nodup h.givenNodup hma (e ▸ hmb)
-    · exact absurd (hta.symm.trans (hab.trans htb)) (h.sep _ _ hma b hb)
-    · exact absurd (htb.symm.trans (hab.symm.trans hta)) (h.sep _ _ hmb a ha)
-    · exact h.genInj a ha b hb (hta.symm.trans (hab.trans htb))
+    · exact absurd (hta.symm.trans (hab.trans htb)) (h.sep _ _ hma b hb hlb)
+    · exact absurd (htb.symm.trans (hab.symm.trans hta)) (h.sep _ _ hmb a ha hla)
+    · exact h.genInj a ha hla b hb hlb (hta.symm.trans (hab.trans htb))
   · intro a ha
-    rcases cases_text a with ⟨ta, hma, hta⟩ | hta
+    rcases cases_text a with ⟨ta, hma, hta⟩ | ⟨hla, hta⟩
     · have := h.givenUuid _ _ hma
       rw [hta]; exact this
-    · have := h.genUuid a ha
+    · have := h.genUuid a ha hla
       rw [hta]; exact this
   · intro n hn a ha
-    rcases cases_text a with ⟨ta, hma, hta⟩ | hta
+    rcases cases_text a with ⟨ta, hma, hta⟩ | ⟨hla, hta⟩
     · exact fun e => (h.names n hn).2 _ _ hma (e.trans hta)
-    · exact fun e => (h.names n hn).1 a ha (e.trans hta)
+    · exact fun e => (h.names n hn).1 a ha hla (e.trans hta)
 
 end Nix.Tree.Ids
